@@ -749,6 +749,20 @@ def slinalg_solve(a, b):
     return wrap(_np.matmul(_unview(inv), _unview(to_obj(b) if b.dtype != object else b)))
 
 
+def seigvalsh(m, *a, **k):
+    """leaf contract of np.linalg.eigvalsh AS USED BY geometer (QuadricTensor.__init__, normalize_matrix): the eigenvalues
+    only enter through  prod(where(|w| > tol, |w|, 1)) ** (1/n),  a strictly positive number.  They are modelled as fresh
+    strictly positive generators, which over-approximates that scalar by an arbitrary positive number."""
+    m = _np.asarray(m) if not isinstance(m, _np.ndarray) else m
+    R = S.cur()
+    out = _np.empty(m.shape[:-1], dtype=object)
+    for i in _np.ndindex(*out.shape):
+        g = R.fresh("pos", why="|eigenvalue| (normalisation scalar only)")
+        R.facts.append((Sym.const(0) < g) if R.mode == "real" else bnot(mk_eq0(g)))
+        out[i] = g
+    return out.view(SymArray)
+
+
 def _gap(name):
     def f(*a, **k):
         raise EngineGap("leaf %s has no contract installed" % name)
@@ -811,7 +825,11 @@ def swhere(cond, *args):
     ys = _np.asarray(y, dtype=object) if not isinstance(y, _np.ndarray) else _unview(y)
     if xs.dtype != object and ys.dtype != object:
         return wrap(_np.where(c, xs, ys))
-    return wrap(_np.where(c, xs.astype(object), ys.astype(object)))
+    r = _np.where(c, xs.astype(object), ys.astype(object))
+    if r.ndim == 0:
+        v = r[()]
+        return v if isinstance(v, (Sym, SymBool)) else Sym.const(v)  # keeps x[..., None] working like a 0-d array
+    return wrap(r)
 
 
 def sdivide(a, b, out=None, where=True, **k):
@@ -1063,7 +1081,7 @@ class NPProxy:
             "norm": snorm,
             "svd": _gap("linalg.svd"),
             "qr": _gap("linalg.qr"),
-            "eigvalsh": _gap("linalg.eigvalsh"),
+            "eigvalsh": seigvalsh,
         }
         self.linalg = _Linalg(self._linalg_ov)
         self._ov = {
